@@ -100,6 +100,7 @@ def run(ck, fb):
     r01y(ck, fb)
     r01z(ck, fb)
     r01aa(ck, fb)
+    ck.borrow('rules.c20', {'R20b': 'R01ad'}, 'snapshot records and log entries are framed by MessageBufReader: a length prefix decoded from bytes beyond the valid end cuts the record at the wrong place, and the start-up load treats the decode error as end of file - the rest of the snapshot is silently not restored')
     r01ac(ck, fb)
     ck.borrow('rules.c09', {'R09l': 'R01ab'}, 'a snapshot record carries the whole history of a key: the full-value path must store all 100 entries a node served before it stopped, not one fewer')
     ck.borrow('rules.c07', {'R07f': 'R01x'}, 'a snapshot must be labelled with the index of the last entry it contains: last_applied_log advances when the apply is accepted, otherwise the replay after a restart applies an entry twice')
